@@ -643,3 +643,52 @@ M("C02-delete-lambda-keyword", "C02", "src/interrogate/interfaceMakerPythonNativ
 M("C02-benign-reorder-keywords", "C02", "src/interrogate/interfaceMakerPythonNative.cxx",
   "  \"and\",\n  \"as\",\n", "  \"as\",\n  \"and\",\n",
   benign=True)
+
+# ---------------------------------------------------------------- rules added after the first round of seeded changes
+M("C19-bad-after-close", "C19", "src/interrogate/interrogate.cxx",
+  "      output_text.close();\n      if (output_text.fail()) {", "      output_text.close();\n      if (output_text.bad()) {",
+  expect="R19.o2|interrogate.cxx::main|output_text")
+M("C19-benign-bad-after-flush", "C19", "src/interrogate/interrogate.cxx",
+  "      output_text.close();\n      if (output_text.fail()) {", "      output_text.flush();\n      if (output_text.bad()) {",
+  benign=True)
+M("C12-reader-stops-on-0xff", "C12", "src/interrogatedb/interrogate_datafile.cxx",
+  "  while (length > 0) {\n    str += in.get();\n    length--;\n  }", "  while (length > 0) {\n    int ch = in.get();\n    if (ch == 0) {\n      break;\n    }\n    str += (char)ch;\n    length--;\n  }",
+  expect="R12.5|idf_input_string(std::string&)|loop-not-data-dependent")
+M("C12-benign-reader-local", "C12", "src/interrogatedb/interrogate_datafile.cxx",
+  "  while (length > 0) {\n    str += in.get();\n    length--;\n  }", "  while (length > 0) {\n    char ch = in.get();\n    str += ch;\n    length--;\n  }",
+  benign=True)
+M("C15-mod-min-by-minus-one", "C15", "src/cppparser/cppExpression.cxx",
+  "      if (r2.as_integer() == 0 ||\n          (r2.as_integer() == -1 && r1.as_integer() == INT_MIN)) {\n        return Result();\n      }\n      return Result(r1.as_integer() % r2.as_integer());",
+  "      if (r2.as_integer() == 0) {\n        return Result();\n      }\n      return Result(r1.as_integer() % r2.as_integer());",
+  expect="R15.3|CPPExpression::evaluate|r1.as_integer()%r2.as_integer()|min-by-minus-one")
+M("C07-invalid-enumerator-stored", "C07", "src/interrogate/interrogateBuilder.cxx",
+  "        nout << \" has invalid definition!\\n\";\n        return;", "        nout << \" has invalid definition!\\n\";",
+  expect="R07.6|define_enum_type|unevaluable-enumerator-not-stored")
+M("C07-benign-invalid-enumerator-skipped", "C07", "src/interrogate/interrogateBuilder.cxx",
+  "        nout << \" has invalid definition!\\n\";\n        return;", "        nout << \" has invalid definition!\\n\";\n        continue;",
+  benign=True)
+M("C11-hash-not-stored", "C11", "src/interrogate/interfaceMaker.cxx",
+  "           << hash << \"\\n\";\n    }\n  }\n\n  remap->_hash = hash;\n}", "           << hash << \"\\n\";\n    }\n  }\n}",
+  expect="R11.5|hash_function_signature")
+M("C11-hash-stored-before-extension", "C11", "src/interrogate/interfaceMaker.cxx",
+  "  hash += InterrogateBuilder::hash_string(remap->_function_signature, 11);\n  bool inserted = _wrappers_by_hash.insert", "  remap->_hash = hash;\n  hash += InterrogateBuilder::hash_string(remap->_function_signature, 11);\n  bool inserted = _wrappers_by_hash.insert",
+  benign=True)
+M("C04-publish-saves-global-scope", "C04", "src/cppparser/cppBison.yxx",
+  "  publish_previous = current_scope->get_current_vis();", "  publish_previous = global_scope->get_current_vis();",
+  expect="R04.6|begin_publish|saves-current-scope")
+M("C04-protected-label-public", "C04", "src/cppparser/cppBison.yxx",
+  "        | KW_PROTECTED ':'\n{\n  current_scope->set_current_vis(V_protected);", "        | KW_PROTECTED ':'\n{\n  current_scope->set_current_vis(V_public);",
+  expect="R04.6|label|KW_PROTECTED")
+M("C18-boundary-constant", "C18", "src/dtoolbase/pdtoa.cxx",
+  "DiyFp((f << 2) - 1, e - 2)", "DiyFp((f << 2) - 2, e - 2)",
+  expect="R18.4|NormalizedBoundaries|minus-close")
+M("C18-benign-boundary-spelling", "C18", "src/dtoolbase/pdtoa.cxx",
+  "DiyFp((f << 2) - 1, e - 2)", "DiyFp(f * 4 - 1, e - 2)",
+  benign=True)
+M("C02-explicit-coerces", "C02", "src/interrogate/functionRemap.cxx",
+  "    } else if (!_has_this && _parameters.size() > 0 &&\n               (_cppfunc->_storage_class & CPPInstance::SC_explicit) == 0) {", "    } else if (!_has_this && _parameters.size() > 0) {",
+  expect="R02.3|FunctionRemap::setup_properties")
+M("C13-global-test-moved-after-merge", "C13", "src/interrogatedb/interrogateDatabase.cxx",
+  "      if (!this_type.is_global() && other_type.is_global()) {\n        // If the type is about to become global, we need to add it to our\n        // global_types list.\n        _global_types.push_back(this_type_index);\n      }\n\n      InterrogateType merge_type = other_type;\n      merge_type.remap_indices(remap);\n      this_type.merge_with(merge_type);",
+  "      InterrogateType merge_type = other_type;\n      merge_type.remap_indices(remap);\n      this_type.merge_with(merge_type);\n\n      if (!this_type.is_global() && other_type.is_global()) {\n        // If the type is about to become global, we need to add it to our\n        // global_types list.\n        _global_types.push_back(this_type_index);\n      }",
+  expect="R13.3|merge_from|shared-type|global-test-before-merge_with")
